@@ -189,6 +189,8 @@ impl Array {
         }
     }
     fn index_arr_or_insert(&mut self, i: usize) -> &mut Val {
+        #[cfg(kepler_5_rrss_verif)]
+        crate::verif_hooks::check_alloc(i);
         if i >= self.arr.len() {
             self.arr.resize_with(i + 1, Default::default);
         }
@@ -445,6 +447,10 @@ impl Val {
 
     pub fn plus(&self, other: &Val) -> Val {
         let (a, b) = self.plus_coerced(other);
+        #[cfg(kepler_5_rrss_verif)]
+        if let (Val::String(a), Val::String(b)) = (a.as_ref(), b.as_ref()) {
+            crate::verif_hooks::check_alloc(a.len().saturating_add(b.len()));
+        }
         match (a.as_ref(), b.as_ref()) {
             (Val::String(a), Val::String(b)) => {
                 Val::from(a.chars().chain(b.chars()).collect::<String>())
@@ -469,6 +475,12 @@ impl Val {
 
     pub fn multiply(&self, other: &Val) -> Val {
         let (a, b) = self.arith_coerced(other);
+        #[cfg(kepler_5_rrss_verif)]
+        if let (Val::String(a), Val::Number(b)) = (a.as_ref(), b.as_ref()) {
+            if *b >= 0.0 {
+                crate::verif_hooks::check_alloc(a.len().saturating_mul(*b as usize));
+            }
+        }
         match (a.as_ref(), b.as_ref()) {
             (Val::Number(a), Val::Number(b)) => Val::Number(a * b),
             (Val::String(a), Val::Number(b)) if *b >= 0.0 => Val::from(
